@@ -48,3 +48,27 @@ Theorem C19_nonvacuous :
   de_str (WStr (lit "+5")) = DOk (Some 5) /\ de_str (WStr (lit " 5")) = DErr.
 Proof. vm_compute. repeat split; reflexivity. Qed.
 Print Assumptions C19_nonvacuous.
+
+(* ---------- emitted exactly when needed ---------- *)
+From LN Require Import Model.Emit Proofs.EmitP.
+
+(* serde.rs (and `mod serde;`, which lib_file emits under the same condition) exists iff some retained field has
+   one of the three adapter types *)
+Theorem C19_emitted_iff : forall h tp,
+  (exists c, serde_file h tp = Some c) <-> existsb (fun f => adapter_ty (f_ty f)) (all_fields h) = true.
+Proof. intros h tp. rewrite serde_file_iff, needs_serde_iff. reflexivity. Qed.
+Print Assumptions C19_emitted_iff.
+
+(* every `with = "crate::serde::<adapter>"` on a field is backed by that module in serde.rs *)
+Theorem C19_str_backed : forall h tp k r f, In (k, r) (h_schemas h) -> In f (record_fields r) -> f_ty f = TInteger IString ->
+  exists c, serde_file h tp = Some c /\ In (Txt (tp_int_as_str tp)) c.
+Proof. exact with_str_backed. Qed.
+Print Assumptions C19_str_backed.
+Theorem C19_zero_backed : forall h tp k r f, In (k, r) (h_schemas h) -> In f (record_fields r) -> f_ty f = TInteger INullAsZero ->
+  exists c, serde_file h tp = Some c /\ In (Txt (tp_null_as_zero tp)) c.
+Proof. exact with_naz_backed. Qed.
+Print Assumptions C19_zero_backed.
+Theorem C19_date_backed : forall h tp k r f, In (k, r) (h_schemas h) -> In f (record_fields r) -> f_ty f = TDate DInteger ->
+  exists c, serde_file h tp = Some c /\ In (Txt (tp_date_as_int tp)) c.
+Proof. exact with_date_backed. Qed.
+Print Assumptions C19_date_backed.
